@@ -3,7 +3,7 @@ and structured families, through the library, the CLI and the config file."""
 import os
 import shutil
 
-from mc import core, tf, world
+from mc import core, envrun, tf, world
 from mc.ref import bencode, model
 
 MIN = 16384
@@ -144,6 +144,35 @@ def string_spec(s):
     return ("reject",)
 
 
+# process-environment axis (mc/envrun.py): piece-length texts that mix ASCII
+# digits with characters outside ASCII (an acceptable number is left when the
+# other characters are dropped or mangled), non-ASCII digits alone, and
+# plain-ASCII controls (valid exponent, valid byte count, invalid number, word)
+PENV_VALUES = ["15", "32768", "3000", "abc",
+               "16٣", "٣16", "65536é", "16384²",
+               "1é6", "é15", "²", "१५",
+               "１５", "16€", "日16384"]
+_PENV_BODY = r'''
+import json, os
+C = json.loads({blob!r})
+from torrentfile import cli, torrent, utils
+OBS = {{}}
+for key, route, spec in C["runs"]:
+    memo = utils.filelist_total
+    if hasattr(memo, "cache"):
+        memo.cache.clear()
+    try:
+        if route == "lib":
+            torrent.TorrentFile(**spec).write()
+        else:
+            cli.execute(spec)
+        OBS[key] = ["ok", None]
+    except utils.PieceLengthValueError as e:
+        OBS[key] = ["plve", str(e)[:100]]
+    except BaseException as e:
+        OBS[key] = ["exc:" + type(e).__name__, str(e)[:100]]
+'''
+
 AUTO_FORMS = ["file", "dir1", "dir3", "link-file", "dir-with-link",
               "link-dir", "nested", "dir-with-linked-subdir", "file@cli",
               "dir-with-link@cli", "dir-with-linked-subdir@cli"]
@@ -238,6 +267,26 @@ class PieceLenCheck:
             "two payload forms) x three creators; the choice must be a power "
             "of two in [2^14, 2^24] and monotone over the union of all these "
             "observations (equal payloads: equal choices)",
+            "process-environment group (mc/envrun.py): 15 piece-length texts "
+            "- plain-ASCII controls (15, 32768, 3000, abc), ASCII digits "
+            "mixed with characters outside ASCII so that an acceptable "
+            "number is left when those are dropped (`16٣`, `٣16`, `65536é`, "
+            "`16384²`, `1é6`, `é15`, `16€`, `日16384`), non-ASCII characters "
+            "alone (`²`, `१५`, `１５`) - through the configuration file "
+            "(UTF-8 bytes written by the parent), `create --piece-length` "
+            "and the TorrentFile keyword, in a child interpreter under EVERY "
+            "member of envrun.ENVS (ASCII filesystem / locale encodings with "
+            "UTF-8 mode off, POSIX locale, -O, closed / full stdout, removed "
+            "working directory, -W error, ...; one child per environment).  "
+            "Judged in every environment: an unacceptable value never leaves "
+            "a metafile, a metafile that is written records exactly the "
+            "denoted value, a valid value is not answered with the "
+            "piece-length error.  Reading: in the baseline environment every "
+            "rejection must be the piece-length error (as everywhere else in "
+            "this check); in the other environments a refusal of another "
+            "type that leaves no metafile (the environment could not decode "
+            "the file or express the value - it never reached the program as "
+            "a piece length) is recorded, not judged",
         ]
         self.rule = (
             "exhaustive integer intervals + structured families; state = one "
@@ -245,7 +294,13 @@ class PieceLenCheck:
             "validator / creator / CLI; oracle = arithmetic specification; "
             "automatic choice end to end: product payload size x on-disk "
             "form and prior content of the output path x route x creator, "
-            "judged for range and for monotonicity over the union")
+            "judged for range and for monotonicity over the union; "
+            "process-environment axis: piece-length texts (ASCII controls, "
+            "ASCII digits mixed with non-ASCII characters, non-ASCII alone) "
+            "x route (configuration file, command line, library) x every "
+            "named process environment of mc/envrun.py, executed in a child "
+            "interpreter under that environment, judged by the same "
+            "arithmetic specification on the metafile found by the parent")
 
     def groups(self, tier, seed):
         gs = []
@@ -259,6 +314,10 @@ class PieceLenCheck:
         for route in ("lib", "cli", "config"):
             gs.append({"kind": "e2e", "route": route, "seed": seed,
                        "huge": True})
+        # the configuration file / command line / library in a child
+        # interpreter under every named process environment
+        for env in envrun.ENVS:
+            gs.append({"kind": "penv", "env": env, "seed": seed})
         top = 1 << (24 if tier == "quick" else 28)
         step = 1 << 20
         lo = -1024
@@ -424,6 +483,8 @@ class PieceLenCheck:
             return self.run_e2e(g, res)
         if kind == "auto-out":
             return self.run_auto_out(g, res)
+        if kind == "penv":
+            return self.run_penv(g, res)
         if kind == "auto-ints":
             f = tf.utils.get_piece_length
             prev = f(g["lo"])
@@ -785,7 +846,117 @@ class PieceLenCheck:
         res.sample({"e2e": route, "values": n, "huge": bool(g.get("huge"))})
         return res
 
+    # --- process environment
+    def run_penv(self, g, res, only=None):
+        """Every value of PENV_VALUES through the configuration file (written
+        by the parent as UTF-8 bytes), the command line and the library in a
+        child interpreter under one named process environment; the parent
+        reads `piece length` out of whatever lies at the output path.
+        Judged in every environment: a value that does not denote an
+        acceptable piece length never leaves a metafile; a metafile that is
+        written records exactly the denoted value; a valid value is not
+        answered with the piece-length error.  In the baseline environment
+        the full rule applies (every rejection is the piece-length error); in
+        the others a refusal of another type that leaves no metafile (the
+        environment could not read the file / express the value) is
+        recorded, not judged."""
+        import json
+        seed, env = g["seed"], g["env"]
+        parent = world.fresh_dir()
+        payload = os.path.join(parent, "f")
+        with open(payload, "wb") as f:
+            f.write(world.content(seed, 0, 20000))
+        runs, plan = [], []
+        for route in ("config", "cli", "lib"):
+            for i, x in enumerate(PENV_VALUES):
+                out = os.path.join(parent, f"o_{route}_{i}.torrent")
+                if route == "lib":
+                    spec = {"path": payload, "outfile": out, "progress": 0,
+                            "piece_length": x}
+                elif route == "cli":
+                    spec = ["create", payload, "-o", out, "--piece-length", x,
+                            "--prog", "0"]
+                else:
+                    cfg = os.path.join(parent, f"c_{i}.ini")
+                    with open(cfg, "wb") as f:
+                        f.write(f"[config]\npiece-length = {x}\n".encode(
+                            "utf-8"))
+                    spec = ["create", "--config", "--config-path", cfg, "-o",
+                            out, "--prog", "0", payload]
+                runs.append([f"{route}/{i}", route, spec])
+                plan.append((route, i, x, out))
+        blob = json.dumps({"runs": runs})
+        wd = os.path.join(parent, "wd")
+        os.mkdir(wd)
+        rep = envrun.run(env, _PENV_BODY.format(blob=blob), cwd=wd)
+        res.extra["child_interpreters"] += 1
+        if not rep["report"] or not isinstance(rep["obs"], dict) or \
+                len(rep["obs"]) != len(runs):
+            res.outcomes[f"penv:{env}:child-did-not-report"] += 1
+            shutil.rmtree(parent, ignore_errors=True)
+            if env == "default":
+                raise core.InfraError("penv child did not report: " +
+                                      str(rep)[:600])
+            return res
+        for route, i, x, out in plan:
+            st, msg = rep["obs"][f"{route}/{i}"]
+            # configparser strips surrounding whitespace itself
+            sp = string_spec(x.strip() if route == "config" else x)
+            pl = None
+            if os.path.exists(out):
+                try:
+                    with open(out, "rb") as f:
+                        pl = bencode.decode(f.read(), strict=False)[
+                            b"info"][b"piece length"]
+                except Exception as e:  # noqa
+                    pl = "unreadable:" + type(e).__name__
+            res.states += 1
+            res.evals += 1
+            res.transitions += 1
+            res.validated += 1
+            bad = None
+            if pl is not None:
+                if sp[0] == "reject":
+                    bad = "accepted-invalid" if st == "ok" else \
+                        "metafile-written-despite-rejection"
+                elif pl != sp[1] or type(pl) is not int:
+                    bad = "accepted-with-wrong-value"
+            elif st == "plve":
+                if sp[0] == "accept":
+                    bad = "rejected-valid"
+            elif st == "ok":
+                # no exception and nothing at the output path
+                if env == "default":
+                    bad = "no-metafile-and-no-error"
+                else:
+                    res.outcomes[f"penv:{env}:no-metafile-and-no-error"] += 1
+            elif env == "default":
+                bad = "wrong-exception:" + st[4:]
+            else:
+                res.outcomes[f"penv:{env}:refused-other:{st[4:]}"] += 1
+            if bad:
+                if only is None or (only["x"] == x and
+                                    only["route"] == route):
+                    res.violation(
+                        f"C12|e2e-{route}|{bad}|{self.classify(x)}|"
+                        f"penv:{env}",
+                        {"kind": "penv", "env": env, "route": route, "x": x,
+                         "seed": seed},
+                        {"status": st, "message": msg, "recorded": pl,
+                         "spec": list(sp)})
+                res.outcomes[bad] += 1
+            elif pl is not None or st == "plve":
+                res.outcomes["ok"] += 1
+        shutil.rmtree(parent, ignore_errors=True)
+        res.sample({"penv": env, "values": len(PENV_VALUES)})
+        return res
+
     def replay(self, case):
+        if case["kind"] == "penv":
+            res = self.run_penv({"env": case["env"], "seed": case["seed"]},
+                                core.Result(), only=case)
+            return [{"sig": v["sig"], "detail": v["detail"]}
+                    for v in res.violations]
         if case["kind"] in ("value", "e2e"):
             if "isstr" not in case:      # replay files of earlier rounds
                 case = dict(case, isstr=True, where="e2e-" + case["route"])
